@@ -102,8 +102,8 @@ func init() {
 	}
 	// MRO lookup: every call walks the current MRO of the type and returns the first dictionary hit; nothing is memoised across calls (a cache would need invalidation in every subclass)  []
 	pathSpec["py|Type.Lookup"] = []string{
-		"[mro != nil] LOOP(range mro){[!(has(base.Dict[name]))]   | [has(base.Dict[name])]  break} -> after-loop:res",
-		"[mro == nil]  -> nil",
+		"[t.Mro != nil] LOOP(range t.Mro){[!(has(base.Dict[name]))]   | [has(base.Dict[name])]  break} -> after-loop:res",
+		"[t.Mro == nil]  -> nil",
 	}
 	// range equality compares the sequences the ranges denote: different lengths differ; empty ranges are equal; then the first items must agree; a range of one item needs nothing more; otherwise the steps must agree [rangeobject.c range_equals]  []
 	pathSpec["py|Range.M__eq__"] = []string{
